@@ -224,6 +224,8 @@ type Sim struct {
 	podOps      int
 	stopQuiesce bool
 	lastRoundOps int
+	injSeq      int
+	faultyDrain bool // Drain draws API faults too (state-injection bodies)
 	QuiesceHook func(round int)
 }
 
@@ -579,7 +581,11 @@ func (s *Sim) Drain() {
 		} else {
 			c = p[0]
 		}
-		s.grant(c, "")
+		f := ""
+		if s.faultyDrain {
+			f = s.drawFault(c.Task.Ctrl + " " + c.Desc())
+		}
+		s.grant(c, f)
 	}
 	panic("sim: drain did not terminate")
 }
